@@ -81,9 +81,15 @@ for _p, _share in (("C08", 0.3), ("C09", 0.25), ("C15", 0.3), ("C16", 0.25), ("C
     PLANS[_p]["rule"] += RACE_NOTE
     PLANS[_p]["assumptions"] = PLANS[_p]["assumptions"] + ["race stage: Go race detector semantics (happens-before over sync operations; simnet's mutex/cond stands in for the kernel's socket synchronisation)"]
 
-WORLD_BIN = {"policy": "world", "queue": "world", "lookupd": "world", "proto": "world", "meta": "world", "cluster": "world", "admin": "world"}
+REAL_APP = ["nsqd (New/LoadMetadata/PersistMetadata/Main/Exit)", "go-nsq v1.1.0 consumer/producer (rewritten copy: net only)", "go-diskqueue v1.1.0 on tmpfs", "internal/clusterinfo, internal/http_api"]
+PLANS["C19"] = dict(stages=[dict(bin="nsq_to_file", world="tofile", prop="C19", share=1.0)], quick_s=30, thorough_s=600, level="fault_enumeration",
+    rule="each evaluation is one seeded run of the nsq_to_file world: the application's real TopicDiscoverer/FileLogger/router and go-nsq consumer against a real nsqd, with a drawn combination of gzip and level, rotate-size, rotate-interval, datetime format (rolling over inside the run), work-dir, skip-empty-files, sync-interval, max-in-flight, nsqd memory queue and message timeout, planted files with colliding names, disk error / short write injection; operations: publishes (bodies with newlines, NULs, gzip magic), clock advances, SIGHUP, SIGTERM + new instance, SIGKILL now or at the k-th file-system call + new instance, connection resets; ENUMERATED inside every history: every instant the application writes a FIN (tap on its connection) and every file-system mutation (simos hooks) - at each FIN the body and newline must lie inside the fsynced prefix (complete gzip members) of some file, after every rename/link/remove/create every message acknowledged so far must still be in a readable file, and files that existed before an instance started keep their content as a prefix; final accounting: acknowledged publishes not in files <= what the channel still owes; distinct = distinct schedule fingerprint; non-trivial = at least one FIN checked",
+    components=dict(real=REAL_APP + ["apps/nsq_to_file: newTopicDiscoverer/run, FileLogger (HandleMessage, router, Sync, Close, updateFile, exclusiveRename), strftime"], stub=STUB_Q + ["main() flag parsing is not executed: Options are filled in directly; signals are delivered on the channels main() would register"]),
+    assumptions=ASSUME + ["SIGKILL model: every completed system call is visible after the kill, nothing of a call not yet made is; a killed process's later calls fail and its connections are cut at the same instant"], crash_property="C19")
+
+WORLD_BIN = {"tofile": "nsq_to_file", "policy": "world", "queue": "world", "lookupd": "world", "proto": "world", "meta": "world", "cluster": "world", "admin": "world"}
 SELFTEST_WORLDS = [("queue", "ALL"), ("queue", "C08"), ("queue", "C05"), ("lookupd", "C14"), ("lookupd", "C15")]
-ALL_TARGETS = ["world", "world_race"]
+ALL_TARGETS = ["world", "world_race", "nsq_to_file"]
 
 SIMNOTE = ("assumes the trusted base of DESIGN.md 6: Go 1.26.8 synctest + five runtime patches, the two-rule AST rewriter, simnet/simos fidelity, "
            "one-P atomicity between synchronisation operations; oracles see the wire only (frames, HTTP, /stats, data directory)")
@@ -115,10 +121,11 @@ MANIFEST_TEXT["C16"] = mt("seeded search over interleavings of nsqd topic/channe
 
 MANIFEST_TEXT["C11"] = mt("seeded search over policy configurations and command sequences against the real nsqd with real TLS handshakes and stub auth servers whose answers change and fail; oracle: reference gate (TLS gate before everything but IDENTIFY, 403 for plaintext HTTP, E_AUTH_FIRST / E_UNAUTHORIZED / E_AUTH_FAILED, TTL re-fetch) plus registry equality after every operation (a denial leaves no topic, channel or message; a grant is executed) and truthfulness of the auth query.", "DESIGN.md 3 C11", "deterministic simulation: reference policy gate + registry equality")
 
+MANIFEST_TEXT["C19"] = mt("fault enumeration inside seeded histories: every FIN the real nsq_to_file writes (connection tap) and every file-system mutation it performs (simos hooks) is a stop point; at each the acknowledged messages must be inside fsynced, readable (gzip: complete members) file content, and files that existed before (earlier instances, planted collisions) keep their content; SIGTERM/SIGHUP/SIGKILL-at-the-k-th-call with restarts, disk faults, connection resets. Histories are sampled by seed; stop points within a history are enumerated exhaustively.", "DESIGN.md 3 C19 / 7.2", "deterministic simulation: stop-point enumeration over FIN taps and simos hooks")
+
 MANIFEST_TEXT["C17"] = mt("seeded search over route x identity x admin-list x header-name x source-address configurations against the real nsqadmin in front of recording stub upstreams; oracle: 403 and zero upstream requests for every unauthorised mutation, fan-out to every relevant upstream for authorised ones, CIDR gate on /config. Input- and configuration-driven; the simulator contributes source addresses, the per-step upstream request log and determinism.", "DESIGN.md 3 C17", "deterministic simulation: authorisation matrix with upstream request log")
 MANIFEST_TEXT["C18"] = mt("seeded search over generated cluster contents and upstream fault subsets against the real nsqadmin/clusterinfo; oracle: reference union/sum aggregation computed from the stub data, warning/502 mapping, liveness after every request.", "DESIGN.md 3 C18", "deterministic simulation: reference aggregation under upstream faults")
 
 NOT_APPLICABLE = {
- "C19": "not yet built in this session",
  "C20": "not yet built in this session",
 }
